@@ -27,7 +27,7 @@ CONSTANTS Pool,          \* set of inbound records the peer may send
           Ids,           \* ids CancelRequest may name
           RecvUnblocks,  \* does Close() on the channel unblock a pending Recv?
           Faults,        \* subset of {"stop","peerclose","recverr","sendfail","restart","baseend"}
-          Fixed          \* record of BOOLEAN switches F1, F23, F4, F7, F9
+          Fixed          \* record of BOOLEAN switches F1, F23, F4, F7, F9, F14
 
 (***************************************************************************)
 (* Inbound records.                                                        *)
@@ -245,8 +245,10 @@ RdProcess ==
           IN  /\ calls' = [id \in DOMAIN calls \ ids |-> calls[id]]
               /\ cb' = [c \in DOMAIN cb |-> IF cb[c].id \in ids /\ cb[c].st = "wait"
                                             THEN [cb[c] EXCEPT !.st = "done", !.res = "reply"] ELSE cb[c]]
-              \* Response.wait() cancels the callback context: waitCallback wakes and parks at its gate
-              /\ cbw' = [id \in DOMAIN cbw |-> IF id \in ids /\ cbw[id] = "armed" THEN "gate" ELSE cbw[id]]
+              \* Response.wait() in the waiting Callback cancels the callback context: waitCallback wakes and parks at its
+              \* gate.  A callback whose Send failed is not waiting (Callback returned the error at once): nobody cancels.
+              /\ cbw' = [id \in DOMAIN cbw |-> IF id \in ids /\ cbw[id] = "armed" /\ (\E c \in DOMAIN cb : cb[c].id = id /\ cb[c].st = "wait")
+                                                THEN "gate" ELSE cbw[id]]
               /\ inq' = q2
               /\ IF keep # <<>> /\ Len(q2) = 1
                  THEN IF work = "closed" THEN crashed' = "F3-send-on-closed-work" /\ work' = work /\ dpc' = dpc
@@ -445,11 +447,13 @@ PushCall(c) ==
      THEN /\ cb' = [x \in DOMAIN cb \cup {c} |-> IF x = c THEN [id |-> 0, st |-> "done", res |-> "connclosed"] ELSE cb[x]]
           /\ UNCHANGED <<calls, callID, cbw, out>>
      ELSE /\ callID' = callID + 1
-          /\ calls' = [x \in DOMAIN calls \cup {callID} |-> IF x = callID THEN c ELSE calls[x]]
-          /\ cbw' = [x \in DOMAIN cbw \cup {callID} |-> IF x = callID THEN "armed" ELSE cbw[x]]
+          /\ calls' = IF ~sendOK /\ Fixed.F14 THEN calls ELSE [x \in DOMAIN calls \cup {callID} |-> IF x = callID THEN c ELSE calls[x]]
+          /\ cbw' = [x \in DOMAIN cbw \cup {callID} |-> IF x = callID THEN (IF ~sendOK /\ Fixed.F14 THEN "gate" ELSE "armed") ELSE cbw[x]]
           /\ IF sendOK
              THEN cb' = [x \in DOMAIN cb \cup {c} |-> IF x = c THEN [id |-> callID, st |-> "wait", res |-> "-"] ELSE cb[x]]
-             ELSE \* Send failed: pushReq returns the error; the registration stays until the context ends
+             ELSE \* Send failed: pushReq returns the error.  At the pinned commit the registration and its watcher stay
+                  \* until the context ends (finding F14: a reply for that id then strands the watcher); repaired, the
+                  \* registration is removed and the watcher released at once.
                   cb' = [x \in DOMAIN cb \cup {c} |-> IF x = c THEN [id |-> callID, st |-> "done", res |-> "senderr"] ELSE cb[x]]
           /\ out' = Emit([t |-> "pushcall", id |-> callID])
   /\ IF ~AllowPush \/ ch = "nil" THEN UNCHANGED <<callID>> ELSE TRUE
@@ -579,6 +583,9 @@ C08_UsedEmptyAfterStop == ch = "nil" => used = EmptyFn
 C08_NotesServed == wsret => \A s \in Srcs : task[s].st \notin {"todo", "semwait"}
 C08_Terminates == (ch = "nil" /\ peerClosed) ~> wsret
 
+\* C08 (no goroutine left behind): an armed callback watcher always has a registered call - so that a reply consumed by
+\* its waiter, the end of its context or the stop releases it (finding F14)
+C08_NoStrandedWatcher == \A id \in DOMAIN cbw : cbw[id] = "armed" => id \in DOMAIN calls
 \* C09: callback bookkeeping
 C09_CallsMatchWaiters ==
   /\ \A id \in DOMAIN calls : \E c \in DOMAIN cb : cb[c].id = id
